@@ -238,6 +238,16 @@ def reg_phase(ck, tier, broken):
                 if not (tbad and bad):     # the same lost registration is already reported above
                     ck.violation('impl-failing-input', 'registration stress run under ThreadSanitizer: ' + what, case=c1,
                                  expected='missing == 0, no data race', observed=(tbad[0][1] if tbad else what), extra={'harness': 'harness/reg_mt.cpp (-fno-access-control -fsanitize=thread)'})
+    if any('C03_tie_queue_abstraction' in b for b in broken) and not ck.violations:
+        # the queue facts M-BE's atomic-FIFO abstraction rests on no longer hold: search for a failing input where such a
+        # fault shows, the two-thread runs of C02 on the real unbounded queue (pinned threads, ThreadSanitizer, ASan)
+        import props.c02 as c02
+        qmsg, qinfo = c02.mt_runs(ck, 'quick')
+        info['queue_two_thread_search'] = qmsg or 'no failure'
+        if qmsg:
+            ck.violation('impl-failing-input', 'a thread\'s queue is not the FIFO M-BE assumes - two real threads over UnboundedSPSCQueue (checksummed stream, sanitizers): ' + qmsg +
+                         ' [accepted statements are lost or corrupted before the backend decodes them]', case=qinfo,
+                         expected='OK (every record once, in order, intact)', observed=qmsg)
     info['wall_s'] = round(time.time() - t0, 2)
     ck.log('registration stress: %d multi-thread runs, %d registrations, %d mismatches, %.1fs' % (info['runs'], info['registrations_total'], info['mismatches'], info['wall_s']))
     return {'reg_stress': info}
